@@ -102,6 +102,7 @@ SPEC_NAMES = {
     "call_raised",
     "pseudo",
     "no_pseudo_names",
+    "any_int",
 }
 
 
@@ -563,6 +564,18 @@ class SpecMixin:
             return False
         t = ops.truth(self.ctx, v)
         return t if isinstance(t, bool) else mk_bool(t)
+
+    def sp_any_int(self, e, fr):
+        """any_int(x, d): x when it is an int (or bool), else d -- total, never raises"""
+        v = self.ev(e.args[0], fr)
+        d = z3_of_int(self.ev(e.args[1], fr))
+        if isinstance(v, SymAny):
+            isnum = z3.Or(ops.any_tag_is(v, "int"), ops.any_tag_is(v, "bool"))
+            pi = ops.any_proj(self.ctx, v, "int")
+            return mk_int(z3.If(ops.any_tag_is(v, "int"), z3_of_int(pi), d))
+        if isinstance(v, (int, SymInt)) and not isinstance(v, bool):
+            return mk_int(z3_of_int(v))
+        return mk_int(d)
 
     def sp_no_pseudo_names(self, e, fr):
         """no_pseudo_names(headers): no header name starts with ':'"""
